@@ -47,9 +47,12 @@ func c06E2EJob(tier string) *SeqJob {
 		}
 		m["late key!"] = "late.value?"
 	}
-	run := func(ci int, cached bool, seq []int) (string, string, int) {
+	// reporter variants: 0 plain, 1 cached, 2 plain and 3 cached with a reporter that says it neither reports nor tags
+	// (what a multi reporter with such a child says of itself) and is handed every call all the same
+	run := func(ci int, variant int, seq []int) (string, string, int) {
 		c := cfgs[ci]
-		rec := &Recorder{NoPoints: true}
+		cached := variant%2 == 1
+		rec := &Recorder{NoPoints: true, NoCaps: variant >= 2}
 		rootTags, cardTags := map[string]string{"root key": "root.val"}, map[string]string{"c!": "d?"}
 		if cached {
 			rootTags, cardTags = map[string]string{"rootkey": "rootval"}, map[string]string{"c": "d"}
@@ -124,15 +127,15 @@ func c06E2EJob(tier string) *SeqJob {
 				return false
 			}
 			for ci := range cfgs {
-				for _, cached := range []bool{false, true} {
+				for variant := 0; variant < 4; variant++ {
 					sq := append([]int{}, seq...)
 					steps := 0
-					cl, det := guard(func() (string, string) { a, b, s := run(ci, cached, sq); steps = s; return a, b })
-					ops := []string{fmt.Sprint(ci), fmt.Sprint(cached)}
+					cl, det := guard(func() (string, string) { a, b, s := run(ci, variant, sq); steps = s; return a, b })
+					ops := []string{fmt.Sprint(ci), fmt.Sprint(variant)}
 					for _, k := range sq {
 						ops = append(ops, fmt.Sprint(k))
 					}
-					ctx.Case(steps, true, func() string { return fmt.Sprint(cfgs[ci].name, cached, progOps(alpha, sq)) })
+					ctx.Case(steps, true, func() string { return fmt.Sprint(cfgs[ci].name, variant, progOps(alpha, sq)) })
 					ctx.State(fmt.Sprint(ops))
 					if cl != "" {
 						ctx.Fail(cl, det, ops)
@@ -150,16 +153,16 @@ func c06E2EJob(tier string) *SeqJob {
 	}
 	j.Replay = func(ops []string) (string, string) {
 		var ci int
-		var cached bool
+		var variant int
 		fmt.Sscan(ops[0], &ci)
-		fmt.Sscan(ops[1], &cached)
+		fmt.Sscan(ops[1], &variant)
 		var seq []int
 		for _, o := range ops[2:] {
 			var k int
 			fmt.Sscan(o, &k)
 			seq = append(seq, k)
 		}
-		return guard(func() (string, string) { a, b, _ := run(ci, cached, seq); return a, b })
+		return guard(func() (string, string) { a, b, _ := run(ci, variant, seq); return a, b })
 	}
 	return j
 }
